@@ -320,3 +320,44 @@ Fixpoint c05_iface_eqb_tree (m o : c05_imap) : bool :=
   | (q, (s, r)) :: m', (q', (s', r')) :: o' => (q =? q') && c05_list_eqb s' s' && c05_list_eqb r' r' && c05_iface_eqb_tree m' o'
   | _, _ => false
   end.
+
+(* ------------------------------------------------------------------ communicator.hh: DatatypeCommunicator
+   createDataTypes runs buildInterface with the MPIDatatypeInformation functor: per remote process (NOT stripped) one
+   MPI_Type_create_hindexed datatype with, for every selected entry, displ = address of CommPolicy::getAddress(data, local)
+   relative to the address of entry 0 and length = CommPolicy::getSize(data, local).  A datatype is modelled as its list of
+   (block start = local index, block length) pairs; its typemap is the list of cells (local index, component) it addresses.
+   sendRecv starts one persistent receive and one persistent synchronous send per remote process and waits for all:
+   a send transfers the cells of its typemap (gather through the typemap), a receive stores the incoming values into the cells
+   of its typemap in order (scatter through the typemap, plain copy). *)
+Definition c05_dtype := list (nat * nat).
+Definition c05_dt_of (d : c05_data) (info : list nat) : c05_dtype := map (fun l => (l, c05_getsize d l)) info.
+Definition c05_typemap (t : c05_dtype) : list (nat * nat) := flat_map (fun b => map (pair (fst b)) (seq 0 (snd b))) t.
+Definition c05_dt_pack (d : c05_data) (t : c05_dtype) : list N :=
+  map (fun c => nth (snd c) (nth (fst c) d []) 0%N) (c05_typemap t).
+Definition c05_dt_unpack (d : c05_data) (t : c05_dtype) (m : list N) : c05_data :=
+  fold_left (fun d cv => c05_upd false d (fst (fst cv)) (snd (fst cv)) (snd cv)) (combine (c05_typemap t) m) d.
+
+Definition c05_dtypes := list (nat * (c05_dtype * c05_dtype)).          (* messageTypes: rank -> (send type, receive type) *)
+(* build(remoteIndices, sourceFlags, sendData, destFlags, receiveData); None = assert(info.elements < info.size) fails *)
+Definition c05_dt_build (src dst : c05_flagset) (rm : c05_rmap) (sd rd : c05_data) : option c05_dtypes :=
+  match c05_build_all src dst rm with
+  | Some m => Some (map (fun e => (fst e, (c05_dt_of sd (fst (snd e)), c05_dt_of rd (snd (snd e))))) m)
+  | None => None
+  end.
+Definition c05_dt_find (q : nat) (ts : c05_dtypes) : c05_dtype * c05_dtype :=
+  match find (fun e => fst e =? q) ts with Some e => snd e | None => ([], []) end.
+(* forward: send with .first, receive with .second; backward: the other way round *)
+Definition c05_dt_sendtype (fwd : bool) (e : c05_dtype * c05_dtype) : c05_dtype := if fwd then fst e else snd e.
+Definition c05_dt_recvtype (fwd : bool) (e : c05_dtype * c05_dtype) : c05_dtype := if fwd then snd e else fst e.
+
+(* the receives of one rank completing in the given order *)
+Definition c05_dt_recv (rT : nat -> c05_dtype) (msgs : nat -> list N) (order : list nat) (d : c05_data) : c05_data :=
+  fold_left (fun d p => c05_dt_unpack d (rT p) (msgs p)) order d.
+
+(* all ranks; gdata = containers sent from, sdata = containers received into (initial values), orders per rank *)
+Definition c05_dt_phase (fwd : bool) (types : list c05_dtypes) (gdata sdata : list c05_data) (orders : list (list nat)) : list c05_data :=
+  map (fun q =>
+    c05_dt_recv (fun p => c05_dt_recvtype fwd (c05_dt_find p (nth q types [])))
+                (fun p => c05_dt_pack (nth p gdata []) (c05_dt_sendtype fwd (c05_dt_find q (nth p types []))))
+                (nth q orders []) (nth q sdata []))
+      (seq 0 (length types)).
